@@ -52,7 +52,7 @@ func genCase(t *rapid.T) Case {
 	c.Cycles = rapid.SampledFrom([]int{0, 0, 1, 2, 3}).Draw(t, "cycles")
 	c.CycleInput = rapid.SampledFrom([]int{0, 1, 10, 11, 25}).Draw(t, "cycleinput")
 	c.ResizeAway = rapid.IntRange(0, 2).Draw(t, "resizeaway") == 0
-	c.Redundant = rapid.SampledFrom([]int{0, 0, 1, 2, 3}).Draw(t, "redundant")
+	c.Redundant = rapid.SampledFrom([]int{0, 0, 1, 2, 3, 4, 4, 5, 7}).Draw(t, "redundant")
 	all := []string{"poller", "poster", "resizer", "shower", "setter", "channel", "stalled-channel"}
 	for _, a := range all {
 		if rapid.IntRange(0, 2).Draw(t, "actor-"+a) == 0 {
@@ -239,6 +239,19 @@ func prop(c Case) error {
 		if c.ResizeAway {
 			// the user resizes the window while another program has the terminal ...
 			tty.SetSize(18, 4, false) // smaller than before
+		}
+		if c.Redundant&4 != 0 {
+			// the terminal cannot be taken back at first (the tty's Start fails):
+			// Resume reports that, and a later Resume succeeds
+			tty.SetStartErr(fmt.Errorf("tty busy"))
+			var ferr error
+			if err := guard("Resume while the tty's Start fails", func() { ferr = s.Resume() }); err != nil {
+				return err
+			}
+			tty.SetStartErr(nil)
+			if ferr == nil {
+				return fmt.Errorf("Resume (cycle %d) returned nil although the tty's Start failed", cyc)
+			}
 		}
 		var rerr error
 		if err := guard("Resume", func() { rerr = s.Resume() }); err != nil {
